@@ -387,6 +387,7 @@ func C08(c *core.Ctx) {
 	// R5: the schema member of the document object
 	c.Rule("C08-R5", "schema.Object keeps the document's own $schema: unmarshalling assigns it only from the input bytes, marshalling inserts it", 2)
 	schemaObjectRule(c, "C08-R5")
+	c08RawJSON(c)
 
 	// R6: the canonical string encoder leaves nothing out
 	c08Segments(c)
